@@ -58,7 +58,20 @@ def run(ctx):
             hf = core.hir.get(name)
             is_eval = hf is not None and any("ast::Spanned<blots_core::ast::Expr>" in t for t in hf.get("inputs", [])) and any("environment::Environment" in t for t in hf.get("inputs", [])) and "values::Value" in hf.get("output", "")
             handles_assign = hf is not None and any(H.kind(n) in ("Struct",) and (n["res"].get("def") or "").endswith("ast::Expr::Assignment") for n in H.walk(hf["body"]) if isinstance(n.get("res"), dict))
-            ctx.inst("C03.R1", "caller=%s" % name, bool(is_eval and handles_assign), "evaluator-family function destructuring Expr::Assignment: %s/%s" % (is_eval, handles_assign), fn.loc(bbs[0]))
+            ok1 = bool(is_eval and handles_assign)
+            why1 = "evaluator-family function destructuring Expr::Assignment: %s/%s" % (is_eval, handles_assign)
+            if not ok1 and hf is not None and hf.get("vis") != "pub":
+                # an assignment arm moved into a private helper: every caller of the helper must be such an evaluator function
+                def is_assign_eval(n_):
+                    h_ = core.hir.get(n_)
+                    return h_ is not None and any("environment::Environment" in t for t in h_.get("inputs", [])) and \
+                        any(H.kind(x) == "Struct" and (x["res"].get("def") or "").endswith("ast::Expr::Assignment") for x in H.walk(h_["body"]) if isinstance(x.get("res"), dict))
+                hc = M.callers_of(crates, lambda d, name=name: d == name)
+                par = {(cg.fns[c].get("parent") or c) for c in hc}
+                if par and all(is_assign_eval(c) for c in par):
+                    ok1 = True
+                    why1 = "private helper called only from the evaluator's assignment handling (%s)" % sorted(par)
+            ctx.inst("C03.R1", "caller=%s" % name, ok1, why1, fn.loc(bbs[0]))
         else:
             # driver: key must be the constant "inputs"; insert must not be reachable after an evaluation call
             evals = set(fn.calls_matching(lambda d: d.startswith("blots_core::expressions::evaluate") or d == "blots::evaluate_source" or d.endswith("FunctionDef::call")))
@@ -90,7 +103,24 @@ def run(ctx):
     ev = M.Fn(core.mir_fn(EVAL), EVAL)
     inserts = ev.calls_to(ENV + "insert")
     if len(inserts) != 1:
-        raise CheckerError("expected exactly one Environment::insert call in evaluate_ast, found %d" % len(inserts))
+        # the assignment arm may live in a private helper: the function that inserts AND tests is_built_in_function / contains_key
+        cands = []
+        for name in sorted(callers):
+            if not name.startswith("blots_core::expressions::") or name == EVAL:
+                continue
+            g_ = M.Fn(cg.fns[name], name)
+            if len(g_.calls_to(ENV + "insert")) == 1 and (g_.calls_to("blots_core::functions::is_built_in_function") or g_.calls_to(ENV + "contains_key")):
+                cands.append(g_)
+        if len(cands) == 1:
+            ev = cands[0]
+            inserts = ev.calls_to(ENV + "insert")
+            ctx.notes.append("top-level assignment handling found in %s" % ev.name)
+    if len(inserts) != 1:
+        for k_ in ("assignment#not-builtin", "assignment#not-bound", "assignment#after-success", "assignment#err-edge"):
+            ctx.inst("C03.R2", k_, None, "the top-level assignment handling (one guarded Environment::insert) could not be located: %d insert call(s) in evaluate_ast" % len(inserts), ev.loc())
+        inserts = None
+    if inserts is None:
+        return _rest_after_r2(ctx, core, cg, G_holder=None)
     I = inserts[0]
     it = ev.term(I)
     env_root = root_key(ev.trace(it["args"][0]))
@@ -194,7 +224,11 @@ def run(ctx):
             nb = tt.get("t") if tt["k"] in ("goto", "drop") else None
             seen += 1
         ctx.inst("C03.R2", "assignment#err-edge", ok_err, "exactly one successor of the `?` on the right-hand side reaches the insert: %s" % ok_err, ev.loc(eb))
+    return _rest_after_r2(ctx, core, cg, G_holder=None)
 
+
+def _rest_after_r2(ctx, core, cg, G_holder=None):
+    bi = True
     # ------------- R4 special names
     ctx.rule("C03.R4", "every name the evaluator resolves before the environment lookup (constants, inf, infinity), `inputs`, and every reserved word is refused by the assignment arm or unparsable as an identifier", floor=8)
     hev = core.hir_fn(EVAL)
